@@ -64,6 +64,8 @@ def _minmax(which):
         c = d.cmp('olt' if which == 'min' else 'ogt', a, b)
         if isinstance(c, bool):
             return a if c else b
+        if not ex.fork_select and not isinstance(a, float) and not isinstance(b, float):
+            return d.ite(c, a, b)
         return a if ex.decide(st, c) else b
     return f
 
